@@ -310,6 +310,11 @@ fn check_pair(pa: &Pv, pb: &Pv, a: &[&Value], b: &[&Value], same_index: bool, re
     if (co == cb) != base.eq || (cb2 == co2) != base.eq || (co == *b[0]) != base.eq {
         return Some(("L9-views-disagree".into(), format!("{} vs {}: ValueCow equality differs from ValueViewCmp ({})", a[0].source(), b[0].source(), base.eq)));
     }
+    // L10: the heterogeneous impls (value vs. raw Rust scalar) and the ScalarCow-level impls give
+    // the same answers as comparing the two values
+    if let Some(f) = check_raw_views(pa, pb, a[0], b[0], &base) {
+        return Some(f);
+    }
     // L8: construction independence — every combination of independently built copies
     for (i, x) in a.iter().enumerate() {
         for (j, y) in b.iter().enumerate() {
@@ -325,6 +330,94 @@ fn check_pair(pa: &Pv, pb: &Pv, a: &[&Value], b: &[&Value], same_index: bool, re
                         "comparing {} with {} gives [{}] for one pair of independently built copies and [{}] for another",
                         pv_show(pa), pv_show(pb), base.show(), o.show()
                     ),
+                ));
+            }
+        }
+    }
+    None
+}
+
+/// `a` compared with the raw Rust scalar that `pb` denotes, through every heterogeneous impl.
+fn check_raw_views(pa: &Pv, pb: &Pv, a: &Value, b: &Value, base: &Out) -> Option<Fail> {
+    let cow = ValueCow::Borrowed(a);
+    let cmp = ValueViewCmp::new(a);
+    let mut answers: Vec<(&'static str, bool)> = vec![];
+    match pb {
+        Pv::Int(i) => {
+            answers.push(("Value == i64", *a == *i));
+            answers.push(("ValueCow == i64", cow == *i));
+            answers.push(("ValueViewCmp == i64", cmp == *i));
+        }
+        Pv::Float(bits) => {
+            let f = f64::from_bits(*bits);
+            answers.push(("Value == f64", *a == f));
+            answers.push(("ValueCow == f64", cow == f));
+            answers.push(("ValueViewCmp == f64", cmp == f));
+        }
+        Pv::Bool(x) => {
+            answers.push(("Value == bool", *a == *x));
+            answers.push(("ValueCow == bool", cow == *x));
+            answers.push(("ValueViewCmp == bool", cmp == *x));
+        }
+        Pv::Str(x) => {
+            let st: &str = x.as_str();
+            let owned: String = x.clone();
+            let ks = liquid::model::KString::from_ref(st);
+            answers.push(("Value == str", *a == *st));
+            answers.push(("Value == &str", *a == st));
+            answers.push(("Value == String", *a == owned));
+            answers.push(("Value == KString", *a == ks));
+            answers.push(("ValueCow == str", cow == *st));
+            answers.push(("ValueCow == String", cow == owned));
+            answers.push(("ValueCow == KString", cow == ks));
+            answers.push(("ValueViewCmp == str", cmp == *st));
+            answers.push(("ValueViewCmp == String", cmp == owned));
+            answers.push(("ValueViewCmp == KString", cmp == ks));
+        }
+        Pv::Date(y, m, d) => {
+            let dt = liquid::model::Date::from_ymd(*y, *m, *d);
+            answers.push(("Value == Date", *a == dt));
+            answers.push(("ValueCow == Date", cow == dt));
+            answers.push(("ValueViewCmp == Date", cmp == dt));
+        }
+        Pv::DateTime(x) => {
+            let dt = liquid::model::DateTime::from_str(x).expect("pool datetime parses");
+            answers.push(("Value == DateTime", *a == dt));
+            answers.push(("ValueCow == DateTime", cow == dt));
+            answers.push(("ValueViewCmp == DateTime", cmp == dt));
+        }
+        _ => {}
+    }
+    for (what, got) in answers {
+        if got != base.eq {
+            return Some(("L9-views-disagree".into(), format!("{} vs {}: `{what}` is {got} but comparing the two values gives {}", pv_show(pa), pv_show(pb), base.eq)));
+        }
+    }
+    // scalar level
+    if let (Some(sa), Some(sb)) = (a.as_scalar(), b.as_scalar()) {
+        let eq = sa == sb;
+        let pc = sa.partial_cmp(&sb);
+        if eq != base.eq || pc != base.cmp {
+            return Some((
+                "L9-views-disagree".into(),
+                format!("{} vs {}: ScalarCow gives ==:{eq} cmp:{pc:?} but the values give ==:{} cmp:{:?}", pv_show(pa), pv_show(pb), base.eq, base.cmp),
+            ));
+        }
+        let (req, rpc): (Option<bool>, Option<Option<Ordering>>) = match pb {
+            Pv::Int(i) => (Some(sa == *i), Some(sa.partial_cmp(i))),
+            Pv::Float(bits) => {
+                let f = f64::from_bits(*bits);
+                (Some(sa == f), Some(sa.partial_cmp(&f)))
+            }
+            Pv::Bool(x) => (Some(sa == *x), Some(sa.partial_cmp(x))),
+            Pv::Str(x) => (Some(sa == *x.as_str()), Some(sa.partial_cmp(x.as_str()))),
+            _ => (None, None),
+        };
+        if let (Some(e), Some(c)) = (req, rpc) {
+            if e != base.eq || c != base.cmp {
+                return Some((
+                    "L9-views-disagree".into(),
+                    format!("{} vs raw {}: ScalarCow's heterogeneous impl gives ==:{e} cmp:{c:?} but the values give ==:{} cmp:{:?}", pv_show(pa), pv_show(pb), base.eq, base.cmp),
                 ));
             }
         }
@@ -723,7 +816,7 @@ impl Engine for C11 {
     }
 
     fn rule(&self) -> String {
-        "one run = one assignment of per-object hash seeds (hook H2) and one insertion history per constructed object: every pool value (64 values: nil, booleans, integers incl. 2^53 and i64 bounds, floats incl. +-0.0, infinities, NaN, strings, dates, date-times incl. one instant in two offsets, empty/blank, arrays and objects nested two deep with 1/2/4/6 keys) is built canonically and twice more independently (fresh seeds, permuted insertion order, optional insert-then-remove churn, clone/to_value/serde round trip); ALL ordered pairs of the pool are checked for laws L1-L7, view agreement (Value, ValueCow, ValueViewCmp) and construction independence over all 16 combinations of copies (one copy is built under a seed stream that is identical in every run, which ties all runs together); a seeded sample of pairs goes through if/case/contains templates and arrays of 2-40 multi-key objects through sort/uniq. distinct_nontrivial counts distinct seed assignments + insertion histories (one per run; each covers every pair that involves an object with >= 2 keys, counter multi_key_pairs_checked); the scalar pairs are a finite table repeated unchanged in every run and add nothing beyond completeness over the pool".into()
+        "one run = one assignment of per-object hash seeds (hook H2) and one insertion history per constructed object: every pool value (64 values: nil, booleans, integers incl. 2^53 and i64 bounds, floats incl. +-0.0, infinities, NaN, strings, dates, date-times incl. one instant in two offsets, empty/blank, arrays and objects nested two deep with 1/2/4/6 keys) is built canonically and twice more independently (fresh seeds, permuted insertion order, optional insert-then-remove churn, clone/to_value/serde round trip); ALL ordered pairs of the pool are checked for laws L1-L7, view agreement (Value, ValueCow, ValueViewCmp, ScalarCow and the heterogeneous impls against raw i64/f64/bool/str/String/KString/Date/DateTime) and construction independence over all 16 combinations of copies (one copy is built under a seed stream that is identical in every run, which ties all runs together); a seeded sample of pairs goes through if/case/contains templates and arrays of 2-40 multi-key objects through sort/uniq. distinct_nontrivial counts distinct seed assignments + insertion histories (one per run; each covers every pair that involves an object with >= 2 keys, counter multi_key_pairs_checked); the scalar pairs are a finite table repeated unchanged in every run and add nothing beyond completeness over the pool".into()
     }
     fn assumptions(&self) -> Vec<String> {
         vec![
